@@ -1,0 +1,4 @@
+//! C23/C24 hook: the real `DependencyQueue` for memory regions and for frames, behind thin
+//! wrappers, so that the correspondence harness can drive it with arbitrary access sequences.
+//! Add-only, `cfg(rigetti_quil_rs_verif)`.
+pub use crate::program::scheduling::graph::verif_dependency_queue::{FrameQueue, MemoryQueue};
